@@ -167,6 +167,19 @@ def handle (line : String) : String :=
         else if !direct && sortKeys msent != sortKeys (parseKeys sentA) then s!"diff fwd-sent-list model={showKeys msent}"
         else "ok"
     | _, _ => "skip parse"
+  | ["adv", own, peer, vec2, dest, chosen] =>
+    -- the gate judged against what the peer advertises NOW (its latest summary vector), whatever the node
+    -- stored of earlier ones
+    match parseMap own, parseMap vec2 with
+    | some own, some vec2 =>
+      let st : St String Int := ⟨own, [(peer, vec2)]⟩
+      let chosen := parseKeys chosen
+      match fwdSpec false true st dest [] chosen with
+      | some cls => s!"specfail {cls}-no-longer-advertised dest={dest} own={showMap own} advertised={showMap vec2}"
+      | none =>
+        let m := forwardTargets O st false dest [peer] []
+        if sortKeys m != sortKeys chosen then s!"diff adv model={showKeys m}" else "ok"
+    | _, _ => "skip parse"
   | ["sfb", isMeta, dest, own, peers, conn, sentB, chosen, del] =>
     match parseMap own, parsePeers peers with
     | some own, some peers =>
